@@ -80,6 +80,13 @@ class Merger(object):
         All fields will be saved in `probes.description.tsv`.
 
     """
+    # Per-cluster metadata files that are renumbered and merged.
+    cluster_data = [
+        'cluster_Amplitude.tsv',
+        'cluster_ContamPct.tsv',
+        'cluster_KSLabel.tsv'
+    ]
+
     def __init__(self, subdirs, out_dir, probe_info=None):
         assert subdirs
         self.subdirs = [Path(subdir) for subdir in subdirs]
@@ -137,6 +144,18 @@ class Merger(object):
             concat = _load_multiple_spike_arrays(*arrays, spike_order=self.spike_order)
             self._save(fn, concat)
 
+    def _metadata_cluster_ids(self, subdir):
+        """Return the cluster ids listed in the cluster metadata files of a probe."""
+        cluster_ids = []
+        for fn in self.cluster_data:
+            try:
+                _, metadata = _read_tsv_simple(subdir / fn)
+            except ValueError:
+                # Skipping non-existing file.
+                continue
+            cluster_ids.extend(metadata.keys())
+        return cluster_ids
+
     def write_spike_clusters(self):
         """Write the merged spike clusters, and register self.cluster_offsets.
            Write the merged spike templates, and register self.template_offsets.
@@ -155,7 +174,10 @@ class Merger(object):
         toffset = 0
         for i, (subdir, sc, st, n_tmp) in enumerate(
                 zip(self.subdirs, spike_clusters_l, spike_templates_l, n_templates_l)):
-            n_clu = int(np.max(sc)) + 1
+            # Number of cluster ids of the probe: a cluster without any spike may still have a row in
+            # the cluster metadata files (KiloSort lists every template there), and that row must not
+            # be renumbered into the id range of the next probe.
+            n_clu = max([int(np.max(sc))] + self._metadata_cluster_ids(subdir)) + 1
             sc += coffset
             st += toffset
             self.cluster_offsets.append(coffset)
@@ -168,7 +190,8 @@ class Merger(object):
         spike_templates = _load_multiple_spike_arrays(
             *spike_templates_l, spike_order=self.spike_order)
         cluster_probes = _concat(cluster_probes_l)
-        assert np.max(spike_clusters) + 1 == cluster_probes.size
+        # The last probe may end with cluster ids that have no spike.
+        assert int(np.max(spike_clusters)) + 1 <= cluster_probes.size
         self._save('spike_clusters.npy', spike_clusters)
         self._save('spike_templates.npy', spike_templates)
         self._save('cluster_probes.npy', cluster_probes)
@@ -177,13 +200,7 @@ class Merger(object):
         """We load all cluster metadata from TSV files, renumber the clusters,
         merge the dictionaries, and save in a new merged TSV file. """
 
-        cluster_data = [
-            'cluster_Amplitude.tsv',
-            'cluster_ContamPct.tsv',
-            'cluster_KSLabel.tsv'
-        ]
-
-        for fn in cluster_data:
+        for fn in self.cluster_data:
             metadata = {}
             for subdir, offset in zip(self.subdirs, self.cluster_offsets):
                 try:
